@@ -67,6 +67,11 @@ def wf_document(case, rnd):
         body = f'<g data-x="{a}"><rect wh="2"/></g>'
     elif src == "reuse-attr":
         body = f'<specs><rect id="t" wh="2" data-x="q"/></specs><reuse href="#t" data-x="{a}"/>'
+    elif src == "class-attr":
+        # class lists: repeated and blank-separated tokens included
+        body = f'<g class="{a}"><rect wh="2" class="k {a} k"/></g>'
+    elif src == "class-var":
+        body = f'<var c="{a}"/><g class="{a} $c"><rect wh="2" class="$c {a}"/></g>'
     elif src == "debug-original":
         cfg["debug"] = True
         body = f'<rect wh="2" data-x="{a}"/>'
